@@ -69,6 +69,9 @@ IdsAll == SUBSET {1, 2, 3}
 
 LedN0a == [vault |-> [a1 |-> [N |-> C0]], supply |-> [N |-> 0], data |-> [N |-> Dt({})], ever |-> [N |-> {}], ctr |-> [N |-> 0]]
 InitN0a == {LedN0a}
+LedFa == [vault |-> [a1 |-> [F |-> FC(4)]], supply |-> [F |-> 4], data |-> <<>>, ever |-> <<>>, ctr |-> <<>>]
+InitFa == {LedFa}
+OpsBucketProofs == {"Withdraw", "TakeAll", "TakeFromWorktop", "BucketProofOfAll", "BucketProofOfAmount", "Deposit", "Burn", "ReturnToWorktop", "DropProof", "CloneProof"}
 OpsNFTiny == {"MintNF", "DepositBatch", "BurnNFInAccount", "UpdateNFData"}
 IdsOne == {{1}}
 LedH == [vault |-> [a1 |-> [H |-> FC(4)], a2 |-> [H |-> FC(2)]], supply |-> [H |-> 6], data |-> <<>>, ever |-> <<>>, ctr |-> <<>>]
